@@ -79,6 +79,18 @@ CLAIMED = {
                 "table {shared_formulas: R1C1/default, DefinedName.formula: A1/default} is the repo's own documented convention. " + TRUST,
         "technique": "typestate dataflow over the CFG (set_* transitions) + provenance of parse arguments + effect summaries",
     },
+    "C11": {
+        "level": "Static site-by-site decision of panic-freedom of the text entry points: every potentially panicking MIR "
+                 "terminator reachable from the lexer/parser/formatter/cell-input entry points is discharged by a zone "
+                 "(difference-bound) abstract interpretation with type-keyed havoc, variant partitioning and callee "
+                 "summaries, by obligations on the decoded language/locale tables, or listed as assumed with its reason.",
+        "note": "11 of 167 sites are ASSUMED (listed in the evidence with reasons: lexer invariant position<=len, digit-index "
+                "relation of the number formatter, parsed_formulas/worksheets length agreement, embedded table decode). Not "
+                "decided: termination, recursion depth, signed overflow (wraps in release), spreadsheet functions and "
+                "evaluation (stop at Model::evaluate). " + TRUST,
+        "technique": "abstract interpretation (zones over MIR locals, field terms and lengths; widening; trace partitioning; "
+                     "per-variant callee summaries; call-site checked preconditions) + call-graph reachability + data tables",
+    },
     "C12": {
         "level": "Static decision of the structure of insertion: spill reset dominates every relocation, array-formula pre-check dominates "
                  "the first persistent write with no explicit error after it, formulas/links/conditional formats displaced together, "
